@@ -3,7 +3,7 @@
 A harness is any `cNN_name` token on a line that invokes a macro at statement level
 (`harness!(..`, `prim_suite!(..`).  The property id is the `cNN` prefix.
 Attributes are `// @key value` comment lines directly above the invocation:
-  @tier quick|thorough      (default quick)
+  @tier quick|thorough|probe (default quick; probe = feasibility harness known not to reach a verdict here, run only by `check --probe`, never by a registered command)
   @unwind N                 (cbmc --unwind N; default: none, i.e. loops must be bounded by themselves)
   @unwindset a:b,c:d        (extra --unwindset entries)
   @timeout SECONDS          (default per tier)
